@@ -340,6 +340,25 @@ func checkC06(c C06Case, o *Obs) error {
 				return fmt.Errorf("%s.File(a path that does not exist, while path+\".gz\" does) yields %s (panic %v), want an error", c.Format, describeItems(got), p)
 			}
 		}
+		// a path is a path: the name of an existing file with white space added at either end
+		// names no file; a file whose name does end in a blank is read as any other
+		for _, ws := range []string{" ", "\n", "\r", "\t"} {
+			for _, padded := range []string{plain + ws, filepath.Join(filepath.Dir(plain), ws+filepath.Base(plain))} {
+				got, over, p := collect(func(cb func(Item) bool) { codec.File(padded, cb) }, 8)
+				if p != nil || over || len(got) == 0 || got[0].Err == nil {
+					return fmt.Errorf("%s.File(%q), which does not exist (the file %q does), yields %s (panic %v), want an error", c.Format, filepath.Base(padded), filepath.Base(plain), describeItems(got), p)
+				}
+			}
+		}
+		{
+			blank := filepath.Join(scratchDir(), fmt.Sprintf(" b%d.%s ", nextTmp(), c.Format))
+			if err := os.WriteFile(blank, text, 0o644); err == nil {
+				trackTemp(blank)
+				if err := compare("File(a file whose name starts and ends with a blank)", func(cb func(Item) bool) { codec.File(blank, cb) }); err != nil {
+					return err
+				}
+			}
+		}
 		missing := filepath.Join(scratchDir(), "does-not-exist", "x."+c.Format)
 		got, over, p := collect(func(cb func(Item) bool) { codec.File(missing, cb) }, 8)
 		if p != nil {
